@@ -397,8 +397,23 @@ def rule_tables_roundtrip(ck: Check, repo: Repo, folder: Folder, rid: str = "R7"
     r.floor(700, "identifiers in the bundled SPDX lists", got=len(ids))
     values = ids + [i + "+" for i in ids[:40]] + ["GPL-3.0-or-later WITH Classpath-exception-2.0", "(MIT OR Apache-2.0) AND CC0-1.0",
                                                   "LicenseRef-custom-1.0", "DocumentRef-x:LicenseRef-y"]
+    if ck.tier == "thorough":
+        import random
+        rnd = random.Random(ck.seed)
+        lic_ids = ids[: len(ids) - 72]
+        exc_ids = ids[len(ids) - 72:]
+        for _ in range(4000):
+            a, b = rnd.choice(lic_ids), rnd.choice(lic_ids)
+            form = rnd.randrange(5)
+            values.append([f"{a} AND {b}", f"{a} OR {b}", f"({a} OR {b}) AND {rnd.choice(lic_ids)}", f"{a} WITH {rnd.choice(exc_ids)}",
+                           f"{a}+ OR LicenseRef-{b}"][form])
     prefixes = folder.known("reuse.copyright", "_COPYRIGHT_PREFIXES")
     notices = [f"{p} 2020 Jane Doe" for p in prefixes.values()] + [f"{p} Example Corp. <https://example.com>" for p in prefixes.values()]
+    if ck.tier == "thorough":
+        for who in ("J. R. \"Bob\" Dobbs", "Ünïcode Wörks GmbH & Co. KG", "a", "Jane Doe <jane@example.com> and others",
+                    "The Foo Authors (see AUTHORS)", "1999 Ltd.", "Team #42"):
+            for yr in ("", "1999 ", "1999-2004 ", "1999 - 2004 "):
+                notices += [f"{p} {yr}{who}" for p in prefixes.values()]
 
     def comment(style: dict, mode: str, lines: list[str]) -> str | None:
         """Table model of create_comment (shape verified above), instantiated with the folded style constants."""
